@@ -9,11 +9,16 @@
    the re-packed bytes are accepted again - whatever follows them, whatever object they are unpacked into - decode to
    the same MTI, bitmap, set of elements and element contents, and re-pack to exactly themselves
    (C02_message_canonical), for every coherent message specification whose field specifications are accepting
-   (C02_prim_accepting: all primitive fields are; composites are accepting when a re-packed subfield cannot outgrow
-   the composite's declared maximum - not proved in general, checked by the oracle on mutated encodings).
+   (C02_prim_accepting: all primitive fields are). (3) Every nested specification: whatever a field (composites of all
+   three modes, any depth) or a message accepts, IF it packs, lies in the domain of the round trip, so the re-packed
+   bytes are accepted again, decode to equivalent content and re-pack to themselves (C02_field_canonical_if_packs,
+   C02_message_canonical_if_packs), for coherent specifications whose primitive leaves are accept_ok (accept_spec); the
+   five shipped specifications satisfy it completely (C02_shipped_specs_nested). That Pack of an accepted composite
+   succeeds is the one clause without a theorem: a re-packed subfield (padded to its full width, an empty numeral
+   rendered as 0) can outgrow a tight composite maximum; it is checked by the oracle on mutated encodings.
    C02_prim_fixed_point is the round trip on the domain itself. *)
 From Iso Require Import Model.Base Model.Padding Model.Encoding Model.Prefix Model.Bitmap Model.Spec Model.Field Model.Message
-     Proofs.BaseLemmas Proofs.PrefixProofs Proofs.FieldProofs Proofs.CompositeProofs Proofs.MessageRoundtrip Proofs.AcceptProofs Proofs.MessageAccept Proofs.CoherenceCheck Gen.ShippedSpecs.
+     Proofs.BaseLemmas Proofs.PrefixProofs Proofs.FieldProofs Proofs.CompositeProofs Proofs.MessageRoundtrip Proofs.AcceptProofs Proofs.MessageAccept Proofs.CompositeAccept Proofs.MessageAccept2 Proofs.CoherenceCheck Gen.ShippedSpecs.
 From Coq Require Import Lia.
 
 Theorem C02_prim_fixed_point : forall p st b, coherent_pspec p -> prim_in_domain p st -> prim_pack p st = Ok b ->
@@ -77,6 +82,37 @@ Proof.
   intros id p Hl. apply prim_accepting; [|apply (Hp id p Hl)]. destruct Hc as (_ & _ & _ & _ & Hf). apply (Hf id (FPrim p) Hl).
 Qed.
 Print Assumptions C02_shipped_specs.
+
+(* ---- every nested specification, given that the accepted value packs ---- *)
+Theorem C02_field_canonical_if_packs : forall s st0 d st n b, coherent s -> accept_spec s -> shaped s st0 ->
+  unpack_f s st0 d = (st, UOk n) -> pack_f s st = Ok b -> zlen b <= max_int ->
+  forall st1 rest, shaped s st1 -> exists st', unpack_f s st1 (b ++ rest) = (st', UOk (zlen b)) /\ equiv s st st' /\ pack_f s st' = Ok b.
+Proof. exact field_canonical_if_packs. Qed.
+Print Assumptions C02_field_canonical_if_packs.
+
+Theorem C02_message_canonical_if_packs : forall S m0 d m n m' b, msg_coherent S -> accept_ok (ms_mti S) ->
+  (forall id s, zlookup id (ms_fields S) = Some s -> accept_spec s) -> msg_shaped S m0 ->
+  m_unpack S m0 d = (m, UOk n) -> m_pack S m = (m', Ok b) -> zlen b <= max_int ->
+  forall m1 rest, msg_shaped S m1 ->
+    exists m2, m_unpack S m1 (b ++ rest) = (m2, UOk (zlen b)) /\ msg_equiv S m' m2 /\ snd (m_pack S m2) = Ok b.
+Proof. exact message_canonical_if_packs. Qed.
+Print Assumptions C02_message_canonical_if_packs.
+
+(* every data element of every shipped specification - composites included - satisfies accept_spec *)
+Theorem C02_shipped_specs_nested : forall name t, In (name, t) shipped_specs ->
+  exists MS, spec_of_string t = Some MS /\ msg_coherent MS /\ accept_ok (ms_mti MS) /\
+             forall id s, zlookup id (ms_fields MS) = Some s -> accept_spec s.
+Proof.
+  assert (H : forallb (fun nt : String.string * String.string => match spec_of_string (snd nt) with
+                 | Some MS => msg_coherentb MS && accept_okb (ms_mti MS) && forallb (fun ids => accept_specb (snd ids)) (ms_fields MS) | None => false end) shipped_specs = true)
+    by (vm_compute; reflexivity).
+  intros name t Hi. rewrite forallb_forall in H. specialize (H (name, t) Hi). cbn [snd] in H.
+  destruct (spec_of_string t) as [MS|]; [|discriminate]. apply Bool.andb_true_iff in H. destruct H as (H12 & H3). apply Bool.andb_true_iff in H12. destruct H12 as (H1 & H2).
+  exists MS. split; [reflexivity|]. split; [apply msg_coherentb_sound; exact H1|]. split; [apply accept_okb_sound; exact H2|].
+  intros id s Hl. apply accept_specb_sound. rewrite forallb_forall in H3. apply (H3 (id, s)).
+  clear - Hl. induction (ms_fields MS) as [|(k, v) r IH]; [discriminate|]. cbn [zlookup] in Hl. destruct (id =? k) eqn:E; [left; f_equal; [lia|congruence]|right; apply IH; exact Hl].
+Qed.
+Print Assumptions C02_shipped_specs_nested.
 
 (* the hypotheses are satisfiable: a zero-padded fixed Numeric field and a variable String field are accept_ok *)
 Definition p_num : pspec := {| ps_kind := KNumeric; ps_enc := EncASCII; ps_pref := PFixed PfASCII; ps_len := 6; ps_pad := PadLeft x30; ps_packer := PkDefault |}.
